@@ -2,6 +2,7 @@ import Driver.Proto
 import PolyVerif.Model.GltfSpec
 import PolyVerif.Model.GltfDedup
 import PolyVerif.Model.GltfTopo
+import PolyVerif.Model.GltfGlb
 
 /-
   C06 driver: parses scene descriptions / parsed-document summaries from the harness, answers with the model's
@@ -458,6 +459,14 @@ def handle (op : String) (args : List String) : Option String :=
         let b ← pBytes
         pure (s, d, b)) args
       pure (boolStr (carriesScene s d b))
+  | "c06.holds.glbparse" => do
+      -- the statement of glb_parse_write, checked on the IMPLEMENTATION's file with the Lean reader
+      let ((f, j, b), _) ← run (do
+        let f ← pBytes
+        let j ← pBytes
+        let b ← pBytes
+        pure (f, j, b)) args
+      pure (boolStr (glbRoundTrips f j b))
   | "c06.topo" => do
       -- the predicates of gltf_topo_carried_iff / gltf_mode_index_iff and the document-level count check, evaluated on
       -- the IMPLEMENTATION's document and buffer; the harness states what the theorems predict from the scene
